@@ -134,8 +134,8 @@ func (r *Rec) ProbeN(name string, n int) {
 		r.res.Probes[name] += n
 	}
 }
-func (r *Rec) SetNontrivial()     { r.res.Nontrivial = true }
-func (r *Rec) AddSim(sec int64)   { r.res.SimSeconds += sec }
+func (r *Rec) SetNontrivial()   { r.res.Nontrivial = true }
+func (r *Rec) AddSim(sec int64) { r.res.SimSeconds += sec }
 func (r *Rec) HarnessFail(s string) {
 	if r.res.Harness == "" {
 		r.res.Harness = s
